@@ -4,5 +4,6 @@ set -e
 cd "$(dirname "$0")"
 export CARGO_NET_OFFLINE=true
 python3 tools/extract.py
+python3 tools/rs2lean.py > /dev/null
 (cd lean/Engeom && lake build Engeom driver $(ls Engeom/Props/*.lean | sed 's/\.lean$//; s/\//./g'))
 (cd harness && cargo build --release --offline)
